@@ -69,7 +69,7 @@ func (sim) Explain(prop string, st map[string]int64) string {
 	case "C20":
 		probes = []string{"probe.rejection-with-other-unmined", "probe.chained-unconfirmed-send", "probe.already-in-mempool", "probe.already-confirmed",
 			"probe.rejection-of-recorded-tx", "probe.resend-with-unmined", "probe.resend-chain", "fault.backend-answer.transport", "fault.backend-answer.reject-fee",
-			"fault.backend-answer.reject-generic", "fault.backend-answer.reject-conflict", "fault.backend-answer.notify-received-fails", "fault.backend-answer.notify-received-2nd-fails", "probe.resend-rejected", "probe.rejection-with-recorded-child"}
+			"fault.backend-answer.reject-generic", "fault.backend-answer.reject-conflict", "fault.backend-answer.notify-received-fails", "fault.backend-answer.notify-received-2nd-fails", "probe.resend-rejected", "probe.rejection-with-recorded-child", "probe.resend-child-of-two-outputs-of-one-parent"}
 	case "C15":
 		probes = []string{"probe.reorg-back-to-known-blocks", "probe.chain-shortened", "probe.reorg-depth>1", "probe.reorg-with-wallet-tx", "probe.restart-tip-not-on-chain", "probe.stale-disconnect", "probe.reorg-equal-height", "probe.sync-after-backend-failure", "probe.node-moved-while-stopped"}
 	}
@@ -752,6 +752,10 @@ func (rs *runState) exec(task, step int, op core.Op) {
 				env.Count("op.NextAccount")
 				env.Eff()
 			}
+		}
+	case "sendself":
+		if x.running {
+			rs.sendself(step, op)
 		}
 	case "sendx":
 		if x.running {
